@@ -9,7 +9,21 @@ PROP = {'drive': ['T2'], 'harness_files': ['area_t2.go'], 'modules': ['SfntV.Pro
                        'C04_path_sound',
                        'C04_no_accumulation',
                        'C04_glyph_sound_partial',
-                       'C04_width'],
+                       'C04_width',
+                       'C04_stack_bound',
+                       'C04_header',
+                       'C04_chunk_sizes',
+                       'C04_mask',
+                       'C04_glyph_sound',
+                       'C04_endchar',
+                       'C04_glyph_fields',
+                       'C04_path_no_accumulation',
+                       'C04_glyph_roundtrip',
+                       'C04_stems_no_accumulation',
+                       'C04_stems_small',
+                       'C04_stems_exact',
+                       'C04_stems_accumulate_old',
+                       'C04_glyph_sound_unguarded_fails'],
  'areas': [('t2enc', 3000, 100000)],
  'rule': 'distinct case lines (a float as n/2^k; a glyph: commands at scale 2^-20, stems, masks, width, '
          'default/nominal width; per glyph four lines: encodeArgs, edge proposals at every node, assembly of the '
@@ -21,23 +35,28 @@ PROP = {'drive': ['T2'], 'harness_files': ['area_t2.go'], 'modules': ['SfntV.Pro
              'C04_edge_sound and C04_path_sound hold for ALL twelve operator forms (rlineto, hlineto, vlineto, '
              'rlinecurve, rrcurveto, rcurveline, hhcurveto, vvcurveto, hvcurveto, vhcurveto, hflex, hflex1) and every '
              'path of proposed edges.',
-             'C04_glyph_sound_partial (Spec.T2.interp on the bytes of encodeCharString returns the drawn glyph, for '
-             'every choice of edge paths, program ends with endchar, no error hence stack <= 48 and legal operand '
-             'counts) covers glyphs WITHOUT stem hints and masks. Forced hypotheses besides the step bound: drawing '
-             'only after a moveto (cmdsOK) - the encoder happily emits a lineto-first glyph, which the decoder rejects '
-             '("lineTo before moveTo"); this is input validation the encoder does not do, observed on the real code, '
-             'not counted as a finding because the property quantifies over glyph descriptions that start sub-paths '
-             'with a move.',
-             'NOT proved: C04_header (stem chunks of 24/23 pairs, hstemhm/vstemhm, implicit vstem before a leading '
-             'mask), masks inside the path section, i.e. C04_glyph_sound_full (stated as a definition). Header '
-             'assembly and masks are modelled and tied by the exact V stream t2.asm and checked end to end by t2.rt '
-             '(header sweep: {0,1,23,24,25,48}^2 stem pairs x width x mask-first on every run). Further hypotheses '
-             'the full theorem would need, read off the decoder: each mask has exactly ceil(nStems/8) bytes and there '
-             'is at least one stem when a mask is present; stem lists have even length (encoder checks this one).',
-             'C04_no_accumulation is stated per coordinate for an arbitrary decoder position (any history); the '
-             'list-level corollary over drawCmds is not spelled out. Stem deltas are NOT covered by it: they are '
-             'encoded against the unrounded previous edge, so rounding errors can add up along a stem chunk for '
-             'stems finer than 16.16 (not generated; stems in the streams are 16.16-exact).',
+             'Whole charstring: C04_header (width operand, stem chunks of 24 pairs / 23 pairs + width, hstem/vstem vs '
+             'hstemhm/vstemhm, the omitted vstemhm before a leading mask), C04_chunk_sizes, C04_mask (masks inside the '
+             'path section), C04_glyph_sound / C04_glyph_roundtrip (EVERY well-formed glyph, any stems, masks anywhere, '
+             'every choice of edge paths: Spec.T2.interp returns the glyph with the same commands - every coordinate '
+             'within 2^-17 independent of its index, C04_path_no_accumulation -, the same masks, the same stems - every '
+             'edge within 2^-17 independent of its index and of the input resolution, C04_stems_no_accumulation -, the '
+             'width), C04_endchar, C04_stack_bound. C04_glyph_sound_partial (glyphs without hints) is kept but '
+             'superseded. Hypotheses, all decidable: GlyphWF = sub-paths start with a moveto AND every mask has exactly '
+             'ceil(nStems/8) bytes AND a mask needs >= 1 stem. The encoder validates none of this (input validation, '
+             'outside the property: it quantifies over glyph descriptions a charstring can represent); run on the real '
+             'code at the excluded points: lineto-first glyph -> decoder rejects ("lineTo before moveTo"); mask with a '
+             'byte too many -> charstring rejected (badop) by spec and Go decoder; mask with a byte missing -> the mask '
+             'takes the next byte of the charstring as data, spec and Go decoder then read the same different program '
+             '(reject, or a different glyph); mask without stems -> both reject (early); '
+             'C04_glyph_sound_unguarded_fails is the Lean witness that GlyphWF is necessary. Steps within +-32767 '
+             '(stepsSmall, hStemsSmall/vStemsSmall, Small: finding C04-bigstep; C04_stems_small gives a '
+             'chunk-independent sufficient condition); even stem lists (encoder checks).',
+             'STEMS: finding C04-stemaccum (stem deltas taken from the unrounded previous edge, so stems finer than '
+             '16.16 accumulated rounding error along a chunk) was REPAIRED in the repository (b6e7b8c: prev += enc.Val); '
+             'the model follows the repaired code, C04_stems_no_accumulation holds for every input resolution, '
+             'C04_stems_exact for 16.16 stems; C04_stems_accumulate_old states the old behaviour about the old formula '
+             '(stemChunkCodesOld); corpus/C04/stemaccum_fixed.case is the regression case.',
              'Glyphs whose coordinates use the whole +-32000 box (steps up to 64000) are run as diagnostics (kind G): '
              'about a quarter of them read back wrong (finding C04-bigstep, #20).',
              '#19 (default/nominal width in the Private DICT; selectWidths repaired in 7574c51) is outside '
@@ -49,8 +68,8 @@ PROP = {'drive': ['T2'], 'harness_files': ['area_t2.go'], 'modules': ['SfntV.Pro
                            'seehuhn.de/go/dijkstra is not modelled: the theorems quantify over every path of proposed edges; that the '
                            'Go-chosen path is such a path is checked per case by the V stream t2.asm'],
  'assumptions': ['Specification interpreter = Spec.T2.interp of C05 (TN5177 as remembered)',
-                 'Stem values fractional beyond 16.16 are not generated (stem deltas are rounded one by one against '
-                 'the unrounded previous edge, so their rounding errors can add up along the stem list)']}
+                 'Stem values fractional beyond 16.16 are not drawn by the random generator of the D stream (proved for '
+                 'all resolutions; the regression case in corpus/C04 has 2^-20 stems)']}
 
 LEVEL = {'text': 'Proof + correspondence: encodeNumber proved correct against the Type 2 interpreter for all floats '
          '|x| <= 32767 (and proved wrong beyond: defect #20). encodeArgs, every edge proposal of encoder.AppendEdges '
